@@ -3842,14 +3842,21 @@ func (p *printer) printBlock(loc logger.Loc, block js_ast.SBlock) {
 	p.print("}")
 }
 
-func wrapToAvoidAmbiguousElse(s js_ast.S) bool {
+func (p *printer) wrapToAvoidAmbiguousElse(s js_ast.S) bool {
 	for {
 		switch current := s.(type) {
 		case *js_ast.SIf:
-			if current.NoOrNil.Data == nil {
+			no := current.NoOrNil.Data
+
+			// The else branch may disappear entirely when it's printed
+			if expr, ok := no.(*js_ast.SExpr); ok && p.simplifyUnusedExpr(expr.Value).Data == nil {
+				no = nil
+			}
+
+			if no == nil {
 				return true
 			}
-			s = current.NoOrNil.Data
+			s = no
 
 		case *js_ast.SFor:
 			s = current.Body.Data
@@ -3912,7 +3919,7 @@ func (p *printer) printIf(s *js_ast.SIf) {
 		} else {
 			p.printNewline()
 		}
-	} else if wrapToAvoidAmbiguousElse(s.Yes.Data) {
+	} else if p.wrapToAvoidAmbiguousElse(s.Yes.Data) {
 		p.printSpace()
 		p.print("{")
 		p.printNewline()
